@@ -770,7 +770,12 @@ class WCS(GWCSAPIMixin):
                 "different number of inputs and outputs was not implemented."
             )
 
-        # initial guess:
+        # initial guess (fitted for the transforms the pipeline held at the
+        # time: a transform assigned to a step directly invalidates it too):
+        transforms_key = tuple(id(step.transform) for step in self._pipeline)
+        if getattr(self, '_approx_inverse_key', None) != transforms_key:
+            self._approx_inverse = None
+            self._approx_inverse_key = transforms_key
         if nargs == 2 and self._approx_inverse is None:
             self._calc_approx_inv(max_inv_pix_error=5, inv_degree=None)
 
